@@ -104,6 +104,7 @@ def run(ctx, chk):
 
     # ---- D4 I4: every dirty-row index is < lines ------------------------------------------
     dsites = {}
+    deps = set()
     for e in sr['events']:
         ev = e['ev']
         if ev[0] in ('set.insert', 'set.extend') and ev[1] == ('S', 'dirty'):
@@ -135,6 +136,7 @@ def run(ctx, chk):
             k = (short(e['func']), '%s@%s' % (ev[0], site_ord(prog, e)))
             a = dsites.setdefault(k, dict(ok=True, why=why, span=e['span'], n=0))
             a['n'] += 1
+            deps.add((e['ep'] or '').split('::')[-1])
             if not ok and a['ok']:
                 a['ok'] = False
                 a['why'] = why + ' | entry ' + str(e['entry'])
@@ -150,6 +152,7 @@ def run(ctx, chk):
                         cr = g_.collected_range(v_)
                         ok = (isinstance(v_, CollV) and v_.known == ()) or \
                             (cr is not None and not cr[3] and isinstance(lines, NumV) and eng.prove_cmp(st, 'lt' if cr[2] else 'le', cr[1], lines) is True)
+                        deps.add(f_.split('::')[-1])
                         k = (short(f_), 'dirty set replaced')
                         a = dsites.setdefault(k, dict(ok=True, why='replaced by a collected range of rows of the final screen', span=prog.bodies[f_].span, n=0))
                         a['n'] += 1
@@ -159,7 +162,11 @@ def run(ctx, chk):
     for (f, c), a in sorted(dsites.items()):
         chk.instance('R-DIRTYBOUND', f, c, a['ok'], detail='%s (%d visits)' % (a['why'], a['n']), span=a['span'],
                      what='a dirty-row index that is not a row of the screen can be recorded: ' + a['why'])
-    chk.floor('dirty insert sites', len(dsites), 12)
+    # vacuity guard by operation, not by source site (helpers such as `mark_dirty` turn many sites into one): a mark was
+    # examined while analysing each of the operations that change what rows show
+    chk.floor('dirty insert sites', len(dsites), 1)
+    chk.cover('dirty marks examined', deps, ['draw', 'index', 'reverse_index', 'insert_lines', 'delete_lines', 'insert_characters', 'delete_characters',
+                                             'erase_characters', 'erase_in_line', 'erase_in_display', 'alignment_display', 'reset'])
     # lowering `lines` must prune the dirty set: on every exit path that assigns `lines` and is not shown
     # to grow it, the dirty set is cleared, and whatever is marked between that clear and the assignment
     # (own statements or a callee that may write `dirty`) is bounded by the value being installed
